@@ -413,7 +413,10 @@ impl Regex {
         I: Iterator<Item = u32> + Clone,
         F: Into<Flags>,
     {
-        let flags = flags.into();
+        let mut flags = flags.into();
+        // The `v` flag is a superset of `u`: UnicodeSets mode implies Unicode mode
+        // (strict syntax, simple case folding, Unicode-aware \b).
+        flags.unicode |= flags.unicode_sets;
         let mut ire = parse::try_parse(pattern, flags)?;
         if !flags.no_opt {
             optimizer::optimize(&mut ire);
